@@ -291,10 +291,19 @@ impl Prop for C11Prop {
                         // a leading # is dropped, an operator name becomes its opcode
                         let name = String::from_utf8_lossy(q).to_string();
                         let stripped = name.strip_prefix('#').unwrap_or(&name).to_string();
-                        let hit = match chialisp::classic::clvm::keyword_to_atom(2).get(&stripped) {
+                        let mut hit = match chialisp::classic::clvm::keyword_to_atom(2).get(&stripped) {
                             Some(op) => op == p,
                             None => stripped != name && stripped.as_bytes() == &p[..],
                         };
+                        // ... and a word that spells a number reads as that number ("12" -> 12)
+                        if !hit && !name.is_empty() && name.chars().all(|ch| ch.is_ascii_alphanumeric() || ch == '-') {
+                            let mut al = clvmr::Allocator::new();
+                            if let Ok(n) = assemble(&mut al, &name) {
+                                if let V::A(bytes) = V::from_node(&al, n) {
+                                    hit = bytes != *q && bytes == *p;
+                                }
+                            }
+                        }
                         *any |= hit;
                         hit
                     }
